@@ -1,31 +1,52 @@
 ------------------------------ MODULE MCStore ------------------------------
-(* Model-checking wrapper of PearlStore: bounds and the view that hides the  *)
-(* observation variables (act, ret).                                         *)
+(* Model-checking wrapper of PearlStore: bounds, the view that hides the     *)
+(* observation variables (act, ret), a selectable action alphabet and the    *)
+(* per-transition check behind C03 / C04 / C15.                              *)
 EXTENDS PearlStore
 
-CONSTANTS MaxOps,    \* bound on data operations
-          MaxBlobId  \* bound on blob ids
+CONSTANTS MaxOps,     \* bound on data operations
+          MaxBlobId,  \* bound on blob ids
+          MCActs,     \* names of the enabled actions
+          MCDamages   \* damage classes used by restarts (applied uniformly to all index files)
 
 View == <<blob, active, slots, nextId, usedIds, quar, worker, agedIds, opn>>
 
 Bound == opn <= MaxOps /\ nextId <= MaxBlobId + 1 /\ Len(slots) <= MaxBlobId + 2
 
-\* C04 / C03 / C15 as a check on every explored transition (an action property in
-\* PROPERTIES would send TLC through its liveness machinery, 30 times slower)
 \* Every reference-layer answer and every count is a function of the live set and of the
-\* record sequences of the live blobs only (see the Ref.. definitions), so "no answer
-\* changes" is checked as "RecsOfLive does not change".
+\* record sequences of the non-empty live blobs only (see the Ref.. definitions), so "no
+\* answer changes" is checked as "RecsOfLive does not change".  (An action property in
+\* PROPERTIES would send TLC through its liveness machinery, 30 times slower.)
 RecsOfLive == {<<b, blob[b].recs>> : b \in {x \in Live : blob[x].recs # <<>>}}
 StepChecks ==
   Assert(IsData \/ RecsOfLive' = RecsOfLive,
          <<"Transparent violated: a non-data action changed the live records", act'>>)
 
-\* restarts with one damage class for all files keep the branching small; the full
-\* per-file product is explored by MCStoreDmg.cfg
-UniformRestart ==
-  \E g \in BOOLEAN, lz \in BOOLEAN, c \in {"keep", "lose", "stale"} :
+On(a) == a \in MCActs
+
+MCData ==
+  \/ On("write")  /\ \E k \in Keys, ts \in 1..MaxTs, m \in Metas, sz \in Sizes : Write(k, ts, m, sz)
+  \/ On("delete") /\ \E k \in Keys, ts \in 1..MaxTs, m \in Metas, o \in BOOLEAN : Delete(k, ts, m, o)
+
+MCLife ==
+  \/ On("close_active")   /\ CloseActive
+  \/ On("create_active")  /\ CreateActive
+  \/ On("restore_active") /\ RestoreActive
+  \/ On("force_update")   /\ \E p \in {"always", "never", "ifactive"} : ForceUpdate(p)
+  \/ On("close_bg")       /\ CloseBg
+  \/ On("create_bg")      /\ CreateBg
+  \/ On("restore_bg")     /\ RestoreBg
+  \/ On("free_excess")    /\ FreeExcess
+  \/ On("age")            /\ Age
+  \/ On("dump_idx")       /\ \E b \in Ids : DumpIdx(b)
+
+MCRestart ==
+  On("restart") /\ \E g \in BOOLEAN, lz \in BOOLEAN, c \in MCDamages :
      Restart(g, lz, [b \in Ids |-> c])
 
-MCNextUniform == (DataNext \/ LifeNext \/ UniformRestart) /\ StepChecks
-MCSpecUniform == Init /\ [][MCNextUniform]_vars
+\* the full per-file product of damage classes
+MCRestartFull == On("restart_full") /\ \E g \in BOOLEAN, lz \in BOOLEAN, d \in Damages : Restart(g, lz, d)
+
+MCNext == (MCData \/ MCLife \/ MCRestart \/ MCRestartFull) /\ StepChecks
+MCSpec == Init /\ [][MCNext]_vars
 =============================================================================
